@@ -190,7 +190,7 @@ def run(rec, rng, tier, shard, nshards):
     tmo.settings.set_thermo(['Water'], cache=True)
     if shard == 0:
         for case in REGRESSION: run_case(case, rec)
-    ngraphs = 500 if tier == 'quick' else 9000
+    ngraphs = 1000 if tier == 'quick' else 15000
     done = 0
     while done < ngraphs:
         cyclic = rng.random() < 0.5
